@@ -28,7 +28,7 @@ package SolarUtil
 //@   = 0 <= h && h <= 23 && 0 <= mi && mi <= 59 && 0 <= s && s <= 59
 
 //@ spec func inYears(y int) bool
-//@   = 1 <= y && y <= 9999
+//@   = 0 <= y && y <= 9999
 
 //@ spec func gregorian(y int, m int, d int) bool
 //@   = y > 1582 || (y == 1582 && (m > 10 || (m == 10 && d >= 15)))
@@ -95,8 +95,8 @@ package SolarUtil
 //@   = divf(4*(j-1721058), 1461)
 
 //@ lemma yearBracket(j int) [C04]
-//@   requires 1721424 <= j && j <= 5373484
-//@   ensures jdn(yGuess(j)-1, 1, 1) <= j && j < jdn(yGuess(j)+2, 1, 1) && 1 <= yGuess(j) && yGuess(j) <= 10000
+//@   requires 1721058 <= j && j <= 5373484
+//@   ensures jdn(yGuess(j)-1, 1, 1) <= j && j < jdn(yGuess(j)+2, 1, 1) && 0 <= yGuess(j) && yGuess(j) <= 10000
 
 //@ opaque spec func yOf(j int) int
 //@   = ite(j < jdn(yGuess(j), 1, 1), yGuess(j)-1, ite(j < jdn(yGuess(j)+1, 1, 1), yGuess(j), yGuess(j)+1))
@@ -110,14 +110,14 @@ package SolarUtil
 //@   = ite(yOf(j) == 1582 && mOf(j) == 10 && j-jdn(yOf(j), mOf(j), 1)+1 > 4, j-jdn(yOf(j), mOf(j), 1)+11, j-jdn(yOf(j), mOf(j), 1)+1)
 
 //@ lemma yOfBracket(j int) [C04]
-//@   requires 1721424 <= j && j <= 5373484
-//@   ensures jdn(yOf(j), 1, 1) <= j && j < jdn(yOf(j)+1, 1, 1) && 1 <= yOf(j) && yOf(j) <= 9999
+//@   requires 1721058 <= j && j <= 5373484
+//@   ensures jdn(yOf(j), 1, 1) <= j && j < jdn(yOf(j)+1, 1, 1) && 0 <= yOf(j) && yOf(j) <= 9999
 //@   use yearBracket(j)
 //@   reveal yOf
 
 //@ lemma ymdOf(j int) [C04]
-//@   requires 1721424 <= j && j <= 5373484
-//@   ensures validYmd(yOf(j), mOf(j), dOf(j)) && jdn(yOf(j), mOf(j), dOf(j)) == j && 1 <= yOf(j) && yOf(j) <= 9999
+//@   requires 1721058 <= j && j <= 5373484
+//@   ensures validYmd(yOf(j), mOf(j), dOf(j)) && jdn(yOf(j), mOf(j), dOf(j)) == j && 0 <= yOf(j) && yOf(j) <= 9999
 //@   use yOfBracket(j)
 //@   use yearStep(yOf(j))
 //@   use monthStep(yOf(j), 1)
